@@ -261,7 +261,7 @@ func (n *Node) Stop() {
 }
 
 // DropConns closes every open connection but keeps listening (connection loss, node stays up).
-func (n *Node) DropConns(filter func(c *Conn) bool) int {
+func (n *Node) DropConns(filter func(c interface{ Registered() bool }) bool) int {
 	n.mu.Lock()
 	conns := make([]*Conn, 0, len(n.conns))
 	for c := range n.conns {
